@@ -34,10 +34,9 @@ type AuthenticateASCII struct {
 
 // Handle is the main entry for ascii flows.
 func (a *AuthenticateASCII) Handle(response tq.Response, request tq.Request) {
-	if reply := a.authenticateContinueStop(request); reply != nil {
-		response.ReplyWithContext(request.Context, reply, a.recorderWriter)
-		return
-	}
+	// this entry point only ever receives authenticate start packets.  the abort flag exists in
+	// continue packets only, so it is not looked for here: a start packet with long fields can
+	// also decode as a continue packet whose flag octet is really the username length
 	a.RecordCtx(&request, tq.ContextUser, tq.ContextRemoteAddr, tq.ContextPort, tq.ContextPrivLvl)
 	if a.username == "" {
 		// client didn't send us a username to start with
@@ -59,11 +58,13 @@ func (a *AuthenticateASCII) Handle(response tq.Response, request tq.Request) {
 func (a *AuthenticateASCII) getUsername(response tq.Response, request tq.Request) {
 	// user-msg may contain a password but if we land here, it technically should be a username
 	// this should be safe to log without obscure
-	if reply := a.authenticateContinueStop(request); reply != nil {
-		response.ReplyWithContext(request.Context, reply, a.recorderWriter)
-		return
-	}
 	if a.username == "" {
+		// only here is the request a continue packet; with a username already known we were
+		// called with the start packet itself
+		if reply := a.authenticateContinueStop(request); reply != nil {
+			response.ReplyWithContext(request.Context, reply, a.recorderWriter)
+			return
+		}
 		var body tq.AuthenContinue
 		if err := tq.Unmarshal(request.Body, &body); err != nil {
 			authenASCIIGetUsernameUnexpectedPacket.Inc()
